@@ -295,6 +295,25 @@ int main(int argc, char** argv)
             }
         }
     }
+    // many channels (9..40), totals that are powers of two so that every cumulative boundary is a lattice point, zero weights in between
+    for (int k = 0; k != (thorough ? 400 : 80); ++k)
+    {
+        int n = (int) g.range(9, k % 4 == 0 ? 40 : 20);
+        std::vector<int> w((std::size_t) n, 0);
+        for (int& x : w) x = (int) g.below(n <= 20 ? 4 : 2);
+        if (k % 3 == 0) w[0] = 0;
+        int S = 0;
+        for (int x : w) S += x;
+        if (S >= 64) continue; // the specification's integers are 32 bits wide: total * 2^24 must fit
+        int want = 16;
+        while (want < S + 1) want *= 2;
+        w[(std::size_t) g.below((unsigned) n)] += want - S;
+        auto js = choose_js(w, g);
+        run_dd<float>(w, js, 1.0L, "1");
+        run_dd<double>(w, js, k % 2 ? 1.0L : 0.25L, k % 2 ? "1" : "1/4");
+        run_dd<long double>(w, js, 1.0L, "1");
+        if (k % 2) run_mc<double>(w, js, 1.0L, "1"); else run_mc<float>(w, js, 1.0L, "1");
+    }
     raw_family(g, thorough ? 1500 : 300);
     wide_family<float>(g, thorough ? 1000 : 200); wide_family<double>(g, thorough ? 1000 : 200); wide_family<long double>(g, thorough ? 1000 : 200);
     any_family<float>(g, thorough ? 3000 : 600); any_family<double>(g, thorough ? 3000 : 600); any_family<long double>(g, thorough ? 3000 : 600);
